@@ -156,7 +156,7 @@ type Damage struct {
 	OmitDataSize     bool    // required field datasize not written
 	RawSizeOverride  *int32  // Blob.raw_size instead of the true uncompressed size (zlib blobs)
 	OmitRawSize      bool
-	CorruptZlib      int    // 0 intact; 1 flip a byte in the middle of the zlib stream; 2 truncate the stream; 3 bad zlib header
+	CorruptZlib      int    // 0 intact; 1 flip a byte in the middle of the zlib stream; 2 truncate the stream; 3 bad zlib header; 4 wrong checksum trailer
 	Encoding         string // "" (from Zlib flag) | "raw" | "zlib" | "lzma" (payload stored in field 4) | "none" (no data field at all)
 	IndexData        []byte // BlobHeader.indexdata (valid, optional) if non-nil
 	TruncatePayload  int    // >0: drop that many bytes from the end of the uncompressed message before wrapping
@@ -589,6 +589,9 @@ func FileBlock(typ string, payload []byte, useZlib bool, dmg Damage) (out []byte
 			z = z[:len(z)/2]
 		case 3:
 			z[0], z[1] = 0xff, 0xff
+		case 4: // intact deflate stream, wrong Adler-32 trailer
+			z[len(z)-1] ^= 0x5a
+			z[len(z)-3] ^= 0xa5
 		}
 		if !dmg.OmitRawSize {
 			rs := int32(len(payload))
